@@ -105,7 +105,7 @@ namespace jsonpath {
         jsoncons::jsonpath::detail::eval_context<Json,reference> context;
         auto callback = [&new_value](const path_node_type&, reference v)
         {
-            v = std::forward<T>(new_value);
+            v = new_value; // called once per selected node: must not move from new_value
         };
 
         result_options options = result_options::nodups | result_options::path | result_options::sort_descending;
@@ -133,7 +133,7 @@ namespace jsonpath {
         jsoncons::jsonpath::detail::eval_context<Json,reference> context{aset.get_allocator()};
         auto callback = [&new_value](const path_node_type&, reference v)
         {
-            v = Json(std::forward<T>(new_value), semantic_tag::none);
+            v = Json(new_value, semantic_tag::none); // called once per selected node: must not move from new_value
         };
         result_options options = result_options::nodups | result_options::path | result_options::sort_descending;
         expr.evaluate(context, root, path_node_type{}, root, callback, options);
